@@ -399,6 +399,10 @@ func RequestsFor(ops []string) (reqs []Request, snis []string) {
 		if a := s.Annotations["server-alias"]; a != "" {
 			hosts[a] = true
 		}
+		// a redirect-from domain is answered with a redirect to the host that declares it
+		if a := s.Annotations["redirect-from"]; a != "" {
+			hosts[a] = true
+		}
 	}
 	for _, h := range SortedKeys(hosts) {
 		snis = append(snis, h)
